@@ -49,12 +49,12 @@ Fixpoint flags_tree (rho : pid -> bool) (en taken : bool) (t : ctree) {struct t}
          end) body false
   end.
 
-Fixpoint flags_forest (rho : pid -> bool) (en : bool) (l : list ctree) (tk : bool) {struct l}
-  : list (asg * bool) :=
-  match l with
-  | [] => []
-  | x :: r => flags_tree rho en tk x ++ flags_forest rho en r (next_taken rho en tk x)
-  end.
+Definition flags_forest (rho : pid -> bool) (en : bool) : list ctree -> bool -> list (asg * bool) :=
+  fix go (l : list ctree) (tk : bool) {struct l} : list (asg * bool) :=
+    match l with
+    | [] => []
+    | x :: r => flags_tree rho en tk x ++ go r (next_taken rho en tk x)
+    end.
 
 Definition spec_flags (rho : pid -> bool) (prog : list ctree) : list (asg * bool) :=
   flags_forest rho true prog false.
@@ -129,12 +129,12 @@ Fixpoint slits_tree (ctx : list lit) (since : list pid) (t : ctree) {struct t}
          end) body []
   end.
 
-Fixpoint slits_forest (ctx : list lit) (l : list ctree) (sn : list pid) {struct l}
-  : list (lhs * list lit) :=
-  match l with
-  | [] => []
-  | x :: r => slits_tree ctx sn x ++ slits_forest ctx r (next_since sn x)
-  end.
+Definition slits_forest (ctx : list lit) : list ctree -> list pid -> list (lhs * list lit) :=
+  fix go (l : list ctree) (sn : list pid) {struct l} : list (lhs * list lit) :=
+    match l with
+    | [] => []
+    | x :: r => slits_tree ctx sn x ++ go r (next_since sn x)
+    end.
 
 Definition slits (prog : list ctree) : list (lhs * list lit) := slits_forest [] prog [].
 
